@@ -428,8 +428,10 @@ int main (int argc, char **argv)
             char_buffer, BUF_LEN));
       gd_close(dirfile);
       exit(5);
-    } else if (!zero && n_want > fields[i].n_read) {
-      if (verbose)
+    } else if (n_want > fields[i].n_read) {
+      /* (also with -z: the samples past the end are not printed then, but the
+       * interpolation of the last one read still looks at its successor) */
+      if (verbose && !zero)
         fprintf(stderr,
             "Short read on field %i, padding %" PRIuSIZE " frames\n",
             i, n_want - fields[i].n_read);
